@@ -211,13 +211,18 @@ func budgetExceeded() bool {
 	return jobDeadline != 0 && nowNanos() > jobDeadline
 }
 
+// skeleton of a complete event for a call that may never return (the watchdog then writes it with timeout = true)
+func skeleton(x Inst, c Call) Ev {
+	return Ev{"fam": x.Fam(), "kind": x.Kind(), "cfg": x.Cfg(), "op": c.Op, "a": c.A(), "rs": 1, "pre": 0, "post": 0, "r": []any{},
+		"panic": false, "pmsg": "", "out": 0, "cmps": 0, "timeout": false, "mut": x.Mutates(c.Op), "obsbad": true,
+		"fp": []string{"", "", ""}}
+}
+
 func replay(u Universe, path []Call) Inst {
 	x := u.New()
 	for _, c := range path {
-		func() {
-			defer func() { recover() }()
-			x.Do(c)
-		}()
+		c := c
+		invoke(skeleton(x, c), func() { x.Do(c) }) // under the watchdog: a replayed call may hang in a changed implementation
 	}
 	return x
 }
